@@ -7,7 +7,14 @@ import (
 	"bytes"
 )
 
-func vReader(b []byte) ByteRuneReader { return bufio.NewReader(bytes.NewReader(b)) }
+// vReader: the decoder's input. A reader may return fewer octets than asked for, so besides the usual buffered
+// reader the solver also gets a legal reader that hands out one octet per Read call.
+func vReader(b []byte) ByteRuneReader {
+	if vChoice("reader", 2) == 1 {
+		return &vDribbleReader{vCountingReader{b: b}}
+	}
+	return bufio.NewReader(bytes.NewReader(b))
+}
 
 // specLenInt: octets of the shortest Hessian 2.0 form of a 32-bit int (from the grammar's ranges).
 func specLenInt(v int32) int {
